@@ -118,8 +118,8 @@ EmptyMem == [x \in {} |-> InitTok("")]
 InitState(P) ==
   [sp |-> P.sp0, mem |-> EmptyMem, written |-> {},
    regs |-> EmptyMem, flags |-> InitTok("flags"),
-   phase |-> "pro", step |-> 0, badreads |-> {}, spBody |-> 0, spExit |-> 0,
-   calls |-> <<>>]
+   phase |-> "pro", step |-> 0, badreads |-> {}, misal |-> {}, spBody |-> 0,
+   spExit |-> 0, calls |-> <<>>]
 
 MemSet(mem0, A, v, w) ==
   LET mem == mem0
@@ -268,7 +268,17 @@ EffCore(P, S0, e0) ==
     [] e.op = "clobberf" -> [S EXCEPT !.flags = GarbageTok("flags", g)]
     [] OTHER -> S                                   \* nop
 
-Eff(P, S0, e) == LET S == S0 IN [EffCore(P, S, e) EXCEPT !.step = S.step + 1]
+\* AArch64: sp must be a multiple of 16 whenever it is the base of a memory
+\* access (SP alignment checking), and when the patch body / a callee starts
+SpBasedAccess == {"stppre", "ldppost", "strpre", "ldrpost", "storeslot", "sw", "lw",
+                  "bodyentry", "call"}
+Eff(P, S0, e0) ==
+  LET S == S0
+      e == e0
+      n == EffCore(P, S, e)
+  IN  [n EXCEPT !.step = S.step + 1,
+                !.misal = IF P.abi = "arm64" /\ e.op \in SpBasedAccess /\ S.sp % 16 # 0
+                          THEN @ \cup {S.step} ELSE @]
 
 (***************************************************************************)
 (* The properties (C16).  `written' and `badreads' only grow, so a         *)
@@ -280,6 +290,7 @@ AtEnd(S) == S.phase = "done"
 NoWriteAtOrAboveOriginalSp(P, S) == \A x \in S.written : x + P.w <= P.sp0
 NoRedZoneWriteIfLeaf(P, S) == P.rz > 0 => \A x \in S.written : x + P.w <= P.sp0 - P.rz
 ReadsOnlyOwnSlots(P, S) == S.badreads = {}
+SpAlignedOnAccess(P, S) == (P.sp0 % 16 = 0) => S.misal = {}
 RestoredDeclared(P, S) ==
   AtEnd(S) => \A r \in P.D \cap DOMAIN S.regs : S.regs[r] = InitTok(r)
 \* registers nobody declared keep their value, too (the generated code may
@@ -340,7 +351,7 @@ mvars == <<par, sp, mem, written, regs, flags, phase, aux>>
 
 \* record view of the variables
 St == [sp |-> sp, mem |-> mem, written |-> written, regs |-> regs, flags |-> flags,
-       phase |-> phase, step |-> aux.step, badreads |-> aux.badreads,
+       phase |-> phase, step |-> aux.step, badreads |-> aux.badreads, misal |-> aux.misal,
        spBody |-> aux.spBody, spExit |-> aux.spExit, calls |-> aux.calls]
 
 \* (TLC does not cache a LET at the action level: it would re-evaluate the
@@ -349,7 +360,7 @@ MInit(P0) ==
   \E P \in {P0} : \E S \in {InitState(P)} :
   /\ par = P /\ sp = S.sp /\ mem = S.mem /\ written = S.written /\ regs = S.regs
   /\ flags = S.flags /\ phase = S.phase
-  /\ aux = [step |-> S.step, badreads |-> S.badreads, spBody |-> S.spBody,
+  /\ aux = [step |-> S.step, badreads |-> S.badreads, misal |-> S.misal, spBody |-> S.spBody,
             spExit |-> S.spExit, calls |-> S.calls]
 
 \* (re)start the machine with parameters P, as an action
@@ -357,14 +368,14 @@ MLoad(P0) ==
   \E P \in {P0} : \E S \in {InitState(P)} :
   /\ par' = P /\ sp' = S.sp /\ mem' = S.mem /\ written' = S.written /\ regs' = S.regs
   /\ flags' = S.flags /\ phase' = S.phase
-  /\ aux' = [step |-> S.step, badreads |-> S.badreads, spBody |-> S.spBody,
+  /\ aux' = [step |-> S.step, badreads |-> S.badreads, misal |-> S.misal, spBody |-> S.spBody,
              spExit |-> S.spExit, calls |-> S.calls]
 
 Apply(e) ==
   \E n \in {Eff(par, St, e)} :
   /\ sp' = n.sp /\ mem' = n.mem /\ written' = n.written /\ regs' = n.regs
   /\ flags' = n.flags /\ phase' = n.phase /\ par' = par
-  /\ aux' = [step |-> n.step, badreads |-> n.badreads, spBody |-> n.spBody,
+  /\ aux' = [step |-> n.step, badreads |-> n.badreads, misal |-> n.misal, spBody |-> n.spBody,
              spExit |-> n.spExit, calls |-> n.calls]
 
 Push(r) == Apply(Ev("push", r, "", 0, "", <<>>))
